@@ -321,4 +321,198 @@ def dispatchLoop (act : Id → HAct) : List Id → Lists → List Id × Lists
 /-- One notification: snapshot = `tnotifiers ++ onotifiers` at the start. -/
 def dispatch (act : Id → HAct) (l : Lists) : List Id × Lists := dispatchLoop act (l.t ++ l.o) l
 
+/-! ## `_warn_on_attribute_error` (ctraits.c:1823-1867): a default computation that fails
+
+`default_value_for` calls it with the result of the user's callable (a
+`_name_default` method, an `Instance` factory, a callable default, the
+validator applied to a computed default).  When the call failed with an
+`AttributeError`, a `UserWarning` is issued; the warnings filter may turn that
+warning into an exception, which then gets the `AttributeError` as `__cause__`.
+The ledger follows the references to THE EXCEPTION OBJECT raised by the user's
+code, statement by statement. -/
+namespace Warn
+
+/-- The action of the warnings filter that matches the `UserWarning`. -/
+inductive Mode where
+  | dflt | error | ignore | always
+deriving DecidableEq, Repr
+
+/-- `error`: `PyErr_WarnEx` returns -1 with the warning set as an exception. -/
+def Mode.raises : Mode → Bool
+  | .error => true
+  | _ => false
+
+/-- The warning is shown / recorded (once per location, a fresh location here). -/
+def Mode.shows : Mode → Bool
+  | .dflt => true
+  | .always => true
+  | _ => false
+
+/-- Who owns references to the exception object. -/
+structure Ledger where
+  /-- the thread's error indicator -/
+  indicator : Int
+  /-- `_warn_on_attribute_error` itself -/
+  own : Int
+  /-- the `__cause__` slot of the `UserWarning` (which the error indicator owns) -/
+  cause : Int
+  warned : Bool
+  warningRaised : Bool
+deriving DecidableEq, Repr
+
+/-- Called with `result == NULL`, the exception set.  `attrErr`: it matches `AttributeError`. -/
+def warnOnAttributeError (attrErr : Bool) (m : Mode) : Ledger :=
+  let l0 : Ledger := { indicator := 1, own := 0, cause := 0, warned := false, warningRaised := false }
+  if !attrErr then l0
+  else
+    -- PyErr_Fetch: the indicator's reference is now ours
+    let l1 : Ledger := { l0 with indicator := l0.indicator - 1, own := l0.own + 1 }
+    if m.raises then
+      -- PyErr_NormalizeException / PyException_SetTraceback: no change for the exception object;
+      -- PyErr_Fetch(warning); PyException_SetCause(warn_value, exc_value) STEALS our reference;
+      -- PyErr_Restore(warning); the clean-up releases exc_type and exc_traceback only
+      { l1 with own := l1.own - 1, cause := l1.cause + 1, warningRaised := true }
+    else
+      -- PyErr_Restore(exc_type, exc_value, exc_traceback) steals our reference for the indicator
+      { l1 with own := l1.own - 1, indicator := l1.indicator + 1, warned := m.shows }
+
+/-- How the value was asked for. -/
+inductive Access where
+  | getattr | hasattr | getattr3 | traitGet | defaultValueFor | setattrNotify
+deriving DecidableEq, Repr
+
+/-- `hasattr`, three-argument `getattr` and `trait_get` clear an `AttributeError`. -/
+def Access.swallowsAttributeError : Access → Bool
+  | .hasattr => true
+  | .getattr3 => true
+  | .traitGet => true
+  | _ => false
+
+inductive Out where
+  | orig | warning | swallowed
+deriving DecidableEq, Repr
+
+/-- What the caller observes: what came out, whether its `__cause__` is the exception object, whether a warning
+was recorded, the references to the exception object held by what came out, and the references left over once
+that has been released (what `_warn_on_attribute_error` still "owns": zero for a neutral function). -/
+structure Seen where
+  out : Out
+  cause : Bool
+  warned : Bool
+  held : Int
+  after : Int
+deriving DecidableEq, Repr
+
+def observe (attrErr : Bool) (m : Mode) (a : Access) : Seen :=
+  let l := warnOnAttributeError attrErr m
+  if l.warningRaised then
+    { out := .warning, cause := l.cause == 1, warned := l.warned, held := l.cause, after := l.own }
+  else if attrErr && a.swallowsAttributeError then
+    { out := .swallowed, cause := false, warned := l.warned, held := 0, after := l.own }
+  else
+    { out := .orig, cause := false, warned := l.warned, held := l.indicator, after := l.own }
+
+end Warn
+
+/-! ## Raw `CTrait` API: who owns the objects a trait's fields point to
+
+A machine of three events - `incref o`, `decref o`, `store slot value` - over
+a flat array of reference-holding slots (slot `6·t + f`: field `f` of trait `t`,
+fields in the order `py_post_setattr, py_validate, default_value,
+delegate_name, delegate_prefix, handler`) and a reference count per object
+(only the references OWNED BY TRAIT FIELDS AND BY THE RUNNING C FUNCTION are
+counted; what the caller holds is a constant on top).  Every C entry point is
+the event list it performs, in source order, so that ALIASED arguments
+(`t.clone(t)`, the object a field already holds) need no special case.
+Foreign code (finalizers, weak-reference callbacks) can run right after every
+`decref`: those states are the CHECKPOINTS.  The safety invariant is that at
+every checkpoint and at the end every pointer is backed by a reference. -/
+namespace Raw
+
+inductive Ev where
+  | incref (o : Nat)
+  | decref (o : Nat)
+  | store (i : Nat) (v : Option Nat)
+deriving Repr
+
+structure MS where
+  ptr : List (Option Nat)
+  rc : Nat → Int
+
+/-- Number of slots that point to `o`. -/
+def MS.held (s : MS) (o : Nat) : Nat := s.ptr.count (some o)
+
+/-- Contents of slot `i` (`none`: NULL / `None`). -/
+def MS.at (s : MS) (i : Nat) : Option Nat := s.ptr.getD i none
+
+def bump (rc : Nat → Int) (o : Nat) (d : Int) : Nat → Int := fun x => if x = o then rc x + d else rc x
+
+def ev (s : MS) : Ev → MS
+  | .incref o => { s with rc := bump s.rc o 1 }
+  | .decref o => { s with rc := bump s.rc o (-1) }
+  | .store i v => { s with ptr := s.ptr.set i v }
+
+def run (evs : List Ev) (s : MS) : MS := evs.foldl ev s
+
+/-- The states in which foreign code can run: right after each `decref`. -/
+def checkpoints : List Ev → MS → List MS
+  | [], _ => []
+  | .decref o :: es, s => ev s (.decref o) :: checkpoints es (ev s (.decref o))
+  | e :: es, s => checkpoints es (ev s e)
+
+/-- Every pointer is backed by a reference. -/
+def MS.Inv (s : MS) : Prop := ∀ o, (s.held o : Int) ≤ s.rc o
+
+def Safe (evs : List Ev) (s : MS) : Prop := (∀ c ∈ checkpoints evs s, c.Inv) ∧ (run evs s).Inv
+
+def incs (vs : List (Option Nat)) : List Ev := vs.filterMap (fun v => v.map Ev.incref)
+def decs (vs : List (Option Nat)) : List Ev := vs.filterMap (fun v => v.map Ev.decref)
+def stores (ws : List (Nat × Option Nat)) : List Ev := ws.map (fun w => Ev.store w.1 w.2)
+
+inductive Op where
+  /-- `set_value` (handler, post_setattr, `__dict__`) and `_trait_set_default_value`:
+  INCREF new; store; XDECREF old. -/
+  | set (i new : Nat)
+  /-- `_trait_set_validate`: INCREF new; XDECREF(field); store. -/
+  | setEarly (i new : Nat)
+  /-- `Py_CLEAR(field)` (`trait_clear`). -/
+  | clear (i : Nat)
+  /-- `_trait_set_property`: the stores, then the INCREFs; nothing is released. -/
+  | put (ws : List (Nat × Option Nat))
+  /-- `trait_clone`: `trait->f = source->f; …; Py_XINCREF(trait->f); …`; nothing is released. -/
+  | copy (dst src : List Nat)
+  /-- `t.__setstate__(s.__getstate__())`: the state tuple holds a reference to every value while
+  `_trait_setstate` stores and INCREFs them; nothing else is released. -/
+  | restate (dst src : List Nat)
+  /-- a field set again from its own getter (`t.handler = t.handler`); `early`: with `_trait_set_validate`. -/
+  | reset (i : Nat) (early : Bool)
+  /-- getters: a new reference each, released by the caller. -/
+  | read (is : List Nat)
+
+def compile (s : MS) : Op → List Ev
+  | .set i new => [.incref new, .store i (some new)] ++ decs [s.at i]
+  | .setEarly i new => [.incref new] ++ decs [s.at i] ++ [.store i (some new)]
+  | .clear i => [.store i none] ++ decs [s.at i]
+  | .put ws => stores ws ++ incs (ws.map (·.2))
+  | .copy dst src => stores (dst.zip (src.map s.at)) ++ incs ((dst.zip (src.map s.at)).map (·.2))
+  | .restate dst src =>
+    incs (src.map s.at) ++ (stores (dst.zip (src.map s.at)) ++ incs ((dst.zip (src.map s.at)).map (·.2)))
+      ++ decs (src.map s.at)
+  | .reset i early =>
+    match s.at i with
+    | none => []
+    | some o =>
+      if early then [.incref o, .incref o, .decref o, .store i (some o), .decref o]
+      else [.incref o, .incref o, .store i (some o), .decref o, .decref o]
+  | .read is => incs (is.map s.at) ++ decs (is.map s.at)
+
+/-- One API call: the checkpoint states and the state afterwards. -/
+def step (s : MS) (op : Op) : List MS × MS := (checkpoints (compile s op) s, run (compile s op) s)
+
+/-- Objects that were dying (count zero or less) at a checkpoint while a slot still pointed to them. -/
+def visibleDying (cs : List MS) (objs : List Nat) : List Nat :=
+  objs.filter (fun o => cs.any (fun c => decide (c.rc o ≤ 0) && decide (0 < c.held o)))
+
+end Raw
+
 end TraitsVerif.Model.RefLedger
